@@ -743,15 +743,16 @@ def oracle(case, out):
             ops = [x for x in a.get("ops", "-").split(",") if x and x != "-"]
             res = [] if obs == "-" else obs.split(",")
             sent = b""          # what the writer has been given so far: frames submitted, application bytes accepted
+            flagged = False
             for x, y in zip(ops, res):
                 if x.startswith("s:") and y == "ok":
                     sent += frame(bytes.fromhex(x[2:]))
                 elif x.startswith("w:") and y.startswith("W"):
                     sent += bytes.fromhex(x[2:])[:int(y[1:].split("/")[0])]
-                elif x in ("p", "c") and y.startswith("R/") and int(y[2:]) != len(sent):
+                elif x in ("p", "c") and y.startswith("R/") and int(y[2:]) != len(sent) and not flagged:
+                    flagged = True
                     v("flush", f"poll_{'flush' if x == 'p' else 'close'} returned Ready(Ok) with {y[2:]} bytes visible to the peer, "
                                f"{len(sent)} were written before", i)
-                    break
             vis, acc = unhx(r.get("vis", "-")), unhx(r.get("acc", "-"))
             if not (sent.startswith(acc) and acc.startswith(vis)):
                 v("payload", f"the carrier got {hx(acc)[:80]} (visible {hx(vis)[:80]}), the writer was given {hx(sent)[:80]}", i)
